@@ -431,7 +431,35 @@ func (e *Eval) call(fn *ssa.Function, args []Val) []Val {
 					e.condStoreArr(a.cell, x.Elems, reach[b])
 				case KElemPtr:
 					if a.idx < 0 {
-						unsupported("store through a symbolic index in %s", fn.Name())
+						// a symbolic index: the element it names on each input
+						// is written, the others keep their bytes
+						if x.Kind != KBits {
+							unsupported("store of non-integer into array element in %s", fn.Name())
+						}
+						here := m.And(outer, reach[b])
+						covered := 0
+						for k := 0; a.Lo+k < a.Hi; k++ {
+							kc := e.Const(int64(k), len(a.Bits), false)
+							eq := 1
+							for j := range a.Bits {
+								eq = m.And(eq, m.Not(m.Xor(a.Bits[j], kc.Bits[j])))
+							}
+							if m.And(here, eq) == 0 {
+								continue
+							}
+							covered = m.Or(covered, eq)
+							old := a.cell.arr[a.Lo+k]
+							nw := make([]int, 8)
+							sel := m.And(reach[b], eq)
+							for i := range nw {
+								nw[i] = m.Ite(sel, x.Bits[i], old[i])
+							}
+							a.cell.arr[a.Lo+k] = nw
+						}
+						if m.And(here, m.Not(covered)) != 0 {
+							unsupported("store through an index that may be out of range in %s", fn.Name())
+						}
+						break
 					}
 					if a.cell.items != nil {
 						if !loopy && reach[b] != 1 {
@@ -492,7 +520,7 @@ func (e *Eval) call(fn *ssa.Function, args []Val) []Val {
 				i, ok := constIdx(v.Index)
 				if tb, isTab := e.tableOf(a); isTab && !v.CommaOk {
 					if ix := get(v.Index); ix.Kind == KBits {
-						r, inRange := e.tableByte(tb, ix.Bits)
+						r, inRange := e.tableByteUnder(tb, ix.Bits, m.And(outer, reach[b]))
 						if !inRange {
 							unsupported("index of %s may be out of range in %s", v, fn.Name())
 						}
@@ -514,7 +542,14 @@ func (e *Eval) call(fn *ssa.Function, args []Val) []Val {
 					// a symbolic index into an array of bytes: only loads through it
 					// are supported (a table lookup)
 					if ix := get(v.Index); ix.Kind == KBits {
-						vals[v] = Val{Kind: KElemPtr, cell: a.cell, idx: -1, Bits: ix.Bits}
+						vals[v] = Val{Kind: KElemPtr, cell: a.cell, idx: -1, Bits: ix.Bits, Lo: 0, Hi: len(a.cell.arr)}
+						continue
+					}
+				}
+				if !ok && a.Kind == KSlice && (a.cell == nil || a.cell.items == nil) {
+					// the same through a window of bytes
+					if ix := get(v.Index); ix.Kind == KBits {
+						vals[v] = Val{Kind: KElemPtr, cell: &cell{arr: a.Elems}, idx: -1, Bits: ix.Bits, Lo: a.Lo, Hi: a.Hi}
 						continue
 					}
 				}
@@ -552,7 +587,7 @@ func (e *Eval) call(fn *ssa.Function, args []Val) []Val {
 				}
 				if tb, isTab := e.tableOf(a); isTab && !ok {
 					if ix := get(v.Index); ix.Kind == KBits {
-						r, inRange := e.tableByte(tb, ix.Bits)
+						r, inRange := e.tableByteUnder(tb, ix.Bits, m.And(outer, reach[b]))
 						if !inRange {
 							unsupported("index of %s may be out of range in %s", v, fn.Name())
 						}
@@ -578,7 +613,7 @@ func (e *Eval) call(fn *ssa.Function, args []Val) []Val {
 					}
 					vals[v] = x.cell.items[x.idx]
 				case v.Op == token.MUL && x.Kind == KElemPtr && x.idx < 0:
-					r, inRange := e.tableByte(x.cell.arr, x.Bits)
+					r, inRange := e.tableByteUnder(x.cell.arr[x.Lo:x.Hi], x.Bits, m.And(outer, reach[b]))
 					if !inRange {
 						unsupported("index of %s may be out of range in %s", v, fn.Name())
 					}
@@ -603,6 +638,11 @@ func (e *Eval) call(fn *ssa.Function, args []Val) []Val {
 					} else if !x.cell.set {
 						// zero value
 						w, s, ok := widthOf(v.Type())
+						if _, isStruct := v.Type().Underlying().(*types.Struct); !ok && isStruct {
+							// the zero value of a struct nothing was stored into
+							vals[v] = Val{Kind: KOpaque, Name: "nil"}
+							continue
+						}
 						if !ok {
 							unsupported("load of unset cell in %s", fn.Name())
 						}
@@ -1118,12 +1158,40 @@ func (e *Eval) call(fn *ssa.Function, args []Val) []Val {
 		if j != nil && in[j] {
 			return nil, nil
 		}
+		// strings and slices are windows: two of them cannot be selected by a
+		// condition, the branches must be followed one by one
+		windowPhi := func(x *ssa.BasicBlock) bool {
+			for _, ins := range x.Instrs {
+				phi, isPhi := ins.(*ssa.Phi)
+				if !isPhi {
+					break
+				}
+				switch t := phi.Type().Underlying().(type) {
+				case *types.Slice:
+					return true
+				case *types.Basic:
+					if t.Info()&types.IsString != 0 {
+						return true
+					}
+				}
+			}
+			return false
+		}
+		if j != nil && windowPhi(j) {
+			return nil, nil
+		}
+		for x := range in {
+			if windowPhi(x) {
+				return nil, nil
+			}
+		}
 		for i := len(post) - 1; i >= 0; i-- {
 			order = append(order, post[i])
 		}
 		return order, j
 	}
 	merged := &ssa.BasicBlock{} // marker: the block is entered with merged edges
+	noMergeAt := map[*ssa.BasicBlock]bool{}
 	var run func(b, pred *ssa.BasicBlock, cond int, from int)
 	run = func(b, pred *ssa.BasicBlock, cond int, from int) {
 		steps++
@@ -1181,8 +1249,13 @@ func (e *Eval) call(fn *ssa.Function, args []Val) []Val {
 				outs = append(outs, out{sc, ec})
 			}
 		}
-		if len(outs) == 2 && !e.NoMerge && os.Getenv("GSA_NOMERGE") == "" {
+		if len(outs) == 2 && !e.NoMerge && os.Getenv("GSA_NOMERGE") == "" && !noMergeAt[b] {
 			if order, j := region(b); order != nil {
+				// should a block of the region turn out to need a fork (a slice
+				// with a symbolic bound), the branches are followed one by one
+				vcM, csM := snapshot()
+				defersM := append([]deferRec(nil), defers...)
+				okMerge := true
 				// both branches are followed at once through the pure blocks
 				// behind the test and meet again in j
 				inReg := map[*ssa.BasicBlock]bool{}
@@ -1215,19 +1288,25 @@ func (e *Eval) call(fn *ssa.Function, args []Val) []Val {
 						edge[[2]*ssa.BasicBlock{x, sc}] = 0
 					}
 					if at, _ := execBlock(x, 0); at >= 0 {
-						unsupported("a call with several outcomes inside a merged region of %s", fn.Name())
+						okMerge = false
+						break
 					}
 				}
-				if j != nil {
-					cj := 0
-					for _, p := range j.Preds {
-						cj = m.Or(cj, edge[[2]*ssa.BasicBlock{p, j}])
+				if okMerge {
+					if j != nil {
+						cj := 0
+						for _, p := range j.Preds {
+							cj = m.Or(cj, edge[[2]*ssa.BasicBlock{p, j}])
+						}
+						if cj != 0 {
+							run(j, merged, cj, 0)
+						}
 					}
-					if cj != 0 {
-						run(j, merged, cj, 0)
-					}
+					return
 				}
-				return
+				restore(vcM, csM)
+				defers = defersM
+				noMergeAt[b] = true
 			}
 		}
 		for i, o := range outs {
